@@ -1871,6 +1871,21 @@ def build_tiledpos_case(ctx, idx):
         if grid == (1, 1):
             grid = (2, 2)
         total_r, total_c = grid[0] * tr, grid[1] * tc
+        ro_ = ctx.rng('tiledpospad', idx)
+        if not same_tile and ro_.random() < 0.35:
+            # a source whose tiles start at the SAME offsets as the handed-over ones but have another size: one tile row or
+            # column of padded source tiles (frames of the source are larger than the matrix in that direction)
+            if ro_.random() < 0.5:
+                grid = (grid[0], 1)
+                total_c = tc
+                str_, stc = tr, tc + ro_.randint(1, 2)
+            else:
+                grid = (1, grid[1])
+                total_r = tr
+                str_, stc = tr + ro_.randint(1, 2), tc
+            if grid == (1, 1):
+                grid, total_r = (2, 1), 2 * tr
+                str_, stc = tr, tc + 1
     src_ps = (r.choice(SPACINGS), r.choice(SPACINGS))
     src_origin = [F(r.randint(-400, 400), 8), F(r.randint(-400, 400), 8), F(0)]
     sd, _, _ = rand_direction(r, 0)
@@ -1896,7 +1911,7 @@ def build_tiledpos_case(ctx, idx):
              'nseg': nseg, 'from_volume': placed == 'volume', 'tiled_full': tiled_full, 'omit': omit, 'dir': 'src-oriented',
              'exact': True, 'h': 0, 'placed': placed, 'origin_delta': delta_mode, 'same_tile_size': same_tile,
              'source_origin': [rstr(x) for x in src_origin], 'origin': [rstr(x) for x in origin],
-             'remainder': [total_r % tr, total_c % tc]}
+             'remainder': [total_r % tr, total_c % tc], 'source_tile': [str_, stc]}
     kw = dict(tile_pixel_array=True, tile_size=(tr, tc), omit_empty_frames=omit,
               dimension_organization_type='TILED_FULL' if tiled_full else 'TILED_SPARSE')
     geo = (rowcos, colcos, src_ps, [(origin, mask[0].astype(np.int64))])
@@ -2369,6 +2384,29 @@ def witness_case(ctx, case, reqs, pending):
             mk = lambda arr=arr, src=src: hd.seg.create_segmentation_pyramid(  # noqa: E731
                 [src], [arr], 'BINARY', [seg_description(1)], downsample_factors=[2.0, 4.0], **kw)
             _guard(ctx, descr, check_pyr_case, ctx, descr, (F(1, 2), F(1, 4)), mk, reqs, pending)
+    elif name == 'same-positions-other-frame-size':
+        # two 2 x 2 tiles handed over one by one at the positions of the two (padded) 2 x 3 tiles of the source image
+        origin = [F(83, 2), F(-169, 4), F(0)]
+        rowcos, colcos, src_ps = [F(0), F(-1), F(0)], [F(-1), F(0), F(0)], (F(1, 2), F(1, 4))
+        src, _ = slide_image(4, 2, 2, 3, origin=[float(x) for x in origin], pixel_spacing=[float(x) for x in src_ps],
+                             orientation=[float(x) for x in rowcos + colcos])
+        mask = np.ones((1, 4, 2), np.uint8)
+        mask[0, 1, 0] = 0
+        tiles = [(0, 0), (2, 0)]
+        descr = {'stream': 'witness', 'witness': name, 'idx': 0, 'seed': ctx.seed, 'total': [4, 2], 'tile': [2, 2], 'type': 'BINARY',
+                 'nseg': 1, 'from_volume': False, 'tiled_full': False, 'omit': False, 'dir': 'src-oriented', 'exact': True, 'h': 0,
+                 'placed': 'tiles', 'same_tile_size': False}
+        geo = (rowcos, colcos, src_ps, [(origin, mask[0].astype(np.int64))])
+
+        def mk():
+            pps = [hd.PlanePositionSequence('SLIDE', [float(origin[i] + r0 * src_ps[0] * colcos[i] + c0 * src_ps[1] * rowcos[i]) for i in range(3)],
+                                            pixel_matrix_position=(c0 + 1, r0 + 1)) for r0, c0 in tiles]
+            px = np.stack([mask[0, r0:r0 + 2, c0:c0 + 2] for r0, c0 in tiles])
+            return hd.seg.Segmentation([src], px, 'BINARY', [seg_description(1)], plane_positions=pps,
+                                       plane_orientation=hd.PlaneOrientationSequence('SLIDE', [float(x) for x in rowcos + colcos]),
+                                       pixel_measures=hd.PixelMeasuresSequence(pixel_spacing=[float(x) for x in src_ps], slice_thickness=1.0),
+                                       omit_empty_frames=False, **_seg_kw())
+        _guard(ctx, descr, check_tiled_case, ctx, descr, geo, mask, mk, reqs, pending)
     else:
         return False
     return True
